@@ -14,8 +14,17 @@ def new_reader(cfg):
     return HdlcFrameReader(use_octet_stuffing=bool(cfg[0]), use_abort_sequence=bool(cfg[1]))
 
 
+_observe_count = 0
+
+
 def observe(frame) -> dict:
+    global _observe_count
+    _observe_count += 1
     h = frame.header
+    if _observe_count % 2:
+        # read validity last / first alternately
+        pre = (frame.payload, frame.frame_check_sequence, h.control, frame.is_good_ffc if hasattr(frame, "is_good_ffc") else None)
+        del pre
     return {
         "bytes": bytes(frame.as_bytes),
         "valid": frame.is_valid,
